@@ -721,6 +721,8 @@ def _run_check(ctx, mod, replay):
         for msg in g(ctx, cases):
             ctx.problems.append(msg)
     floor = NONTRIVIAL_FLOOR.get(ctx.prop)
+    if floor and ctx.thorough():
+        floor = floor / 2       # the thorough tier scales the random families, whose share of non-trivial cases is lower
     if floor and cases and len(seen_nt) < floor * len(cases):
         ctx.problems.append(f"generator degenerate: only {len(seen_nt)} of {len(cases)} cases are non-trivial (floor {floor:.2f}: about half of what this check "
                             "reaches on the tree it was built for) — the cases no longer exercise the code")
